@@ -398,7 +398,14 @@ func init() {
 		}
 		m["github.com/ethereum/go-ethereum/crypto.Keccak256"] = func(ex *Exec, fr *frame, cc *ssa.CallCommon, a []Value) Value {
 			var pre []Term
-			for _, part := range sliceElems(a[0]) {
+			parts := sliceElems(a[0])
+			if len(parts) == 1 {
+				if sv, ok := parts[0].(VStr); ok && sv.Atom != nil {
+					// the hash of a string known only by identity: a collision-free function of that identity
+					return termsToSlice(ex, ex.hashBytes("keccak-atom", []Term{*sv.Atom}, 32))
+				}
+			}
+			for _, part := range parts {
 				pre = append(pre, ex.mustBytes(part, "keccak256")...)
 			}
 			return termsToSlice(ex, ex.hashBytes("keccak", pre, 32))
